@@ -19,8 +19,8 @@ COQ_PROPS = "Props/C01.v"
 COQ_PROPS_EXTRA = ["Props/C01tokens.v", "Props/C01doc.v", "Props/C01front.v", "Props/C01front2.v"]
 THEOREMS = [
     "C01_classes: the byte classes generated from the Rust source equal the ABNF classes (all 256 bytes each)",
-    "C01_ws_spec / C01_comment_spec / C01_newline_spec ...: token-level maximal-munch characterisations (see Props/C01.v)",
-    "C01_slice: from_slice bs = if utf8_valid bs then from_str bs else reject",
+    "C01_tokens / C01_datetime_ranges / C01_float_guard: the token constants, the RFC 3339 range constants and the float-overflow guards of the current source equal the specification's",
+    "Props/C01tokens.v (31 theorems): every token of the grammar - sound, complete, commits only where no derivation exists; Props/C01doc.v: C01_sound, C01_complete, C01_invalid_rejected, C01_exact, C01_only_limits_refused for whole documents; Props/C01front.v / C01front2.v: the serde front ends of both crates (from_str, from_slice with its UTF-8 gate, toml::Value / Table) accept exactly what the document parser accepts, outside the private-key class F14 (names in coverage.theorem_names)",
 ]
 RULE = ("abstract-first documents rendered in every lexical variant (valid by construction or with one "
         "definition-rule breach), byte x position sweeps (one document per byte value per lexical context), "
